@@ -23,6 +23,10 @@ func init() {
 				r.Rule("R10f", "INDEX-AT-NODE: every position written to the map forest's leaf index is the position expression of a node-store Put in the same function")
 				checkIndexAtNode(p, r, "R10f")
 			}},
+			{ID: "R10i", Statement: "a hit under a truncated key is confirmed", Run: func(p *Program, r *Report) {
+				r.Rule("R10i", "TRUNCATED-KEY-CONFIRMED: in a hash -> position look-up, a node found under the truncated key of the caller's hash is used only behind an equality of its full hash with the hash asked for")
+				checkTruncatedLookupConfirmed(p, r, "R10i")
+			}},
 			{ID: "R10h", Statement: "position reads test existence", Run: func(p *Program, r *Report) {
 				r.Rule("R10h", "READ-IN-FOREST: a position read (GetHash) either goes through the keyed node store or gates the walk from a root chosen by arithmetic with an exact existence test of the position against the leaf count")
 				checkReadInForest(p, r, "R10h")
